@@ -67,6 +67,8 @@ class Ctx:
         self.solver = None
         self.nadded = 0
         self.notes = []
+        self.margins = []     # real terms whose sign decided a branch (robust-sample selection)
+        self.floors = []      # real terms that went through floor/trunc
 
     def _solver(self):
         if self.solver is None:
@@ -92,12 +94,28 @@ class Ctx:
         """True iff the path condition entails cond."""
         return not self.feasible(z3.Not(cond))
 
-    def branch(self, cond):
+    def model(self):
+        """a model of the current path condition (None if infeasible)"""
+        import time
+        s = self._solver()
+        t = time.time()
+        r = s.check()
+        STATS.solver_calls += 1
+        STATS.solver_s += time.time() - t
+        if r == z3.sat:
+            return s.model()
+        if r == z3.unsat:
+            return None
+        raise Unsupported("solver unknown on a path condition")
+
+    def branch(self, cond, margin=None):
         cond = z3.simplify(cond)
         if z3.is_true(cond):
             return True
         if z3.is_false(cond):
             return False
+        if margin is not None:
+            self.margins.append(margin)
         if self.pos < len(self.prefix):
             d = self.prefix[self.pos]
         else:
@@ -128,10 +146,11 @@ class Ctx:
 
 
 class Path:
-    __slots__ = ("pc", "kind", "value", "notes")
+    __slots__ = ("pc", "kind", "value", "notes", "margins", "floors")
 
-    def __init__(self, pc, kind, value, notes):
+    def __init__(self, pc, kind, value, notes, margins=(), floors=()):
         self.pc, self.kind, self.value, self.notes = pc, kind, value, notes
+        self.margins, self.floors = list(margins), list(floors)
 
     def __repr__(self):
         return "Path(%s, %r, |pc|=%d)" % (self.kind, self.value, len(self.pc))
@@ -143,6 +162,9 @@ def explore(fn, base=(), maxpaths=20000):
     work = [[]]
     out = []
     outer = Ctx.cur
+    global _PICK_EPOCH
+    _PICK_EPOCH += 1
+    _PICK_CACHE.clear()
     try:
         while work:
             sched = work.pop()
@@ -158,13 +180,43 @@ def explore(fn, base=(), maxpaths=20000):
                 r = ("exc", e)
             work.extend(c.pending)
             if r is not None:
-                out.append(Path(list(c.pc), r[0], r[1], c.notes))
+                out.append(Path(list(c.pc), r[0], r[1], c.notes, c.margins, c.floors))
                 STATS.paths += 1
                 if len(out) > maxpaths:
                     raise Unsupported("path cap %d exceeded" % maxpaths)
     finally:
         Ctx.cur = outer
     return out
+
+
+_PICK_EPOCH = 0
+_PICK_CACHE = {}
+
+
+def pick(term, locate, cond_of, nparts):
+    """Model-guided fork over a finite partition of the values of a z3 term.
+    locate(model value) -> part index; cond_of(k) -> z3 Bool 'term lies in part k'. Returns the chosen index;
+    every feasible part is explored on some path (the False side of each decision continues the search)."""
+    c = Ctx.cur
+    if c is None:
+        raise Unsupported("pick outside an exploration")
+    tried = []
+    while True:
+        key = (tuple(c.trace), len(tried))
+        k = _PICK_CACHE.get(key)
+        if k is None:
+            m = c.model()
+            if m is None:
+                raise PathAbort("pick: infeasible")
+            k = locate(m.eval(term, model_completion=True))
+            _PICK_CACHE[key] = k
+        if k in tried:
+            raise Unsupported("pick: partition is not exclusive")
+        tried.append(k)
+        if len(tried) > nparts:
+            raise Unsupported("pick: more parts than the partition has")
+        if c.branch(cond_of(k)):
+            return k
 
 
 # --------------------------------------------------------------------------- bits (GF(2) normal form)
@@ -281,17 +333,18 @@ def bool2bit(cond):
 # --------------------------------------------------------------------------- SymBool
 
 class SymBool:
-    __slots__ = ("t", "bit")
+    __slots__ = ("t", "bit", "margin")
 
-    def __init__(self, t, bit=None):
+    def __init__(self, t, bit=None, margin=None):
         self.t = t
         self.bit = bit
+        self.margin = margin
 
     def __bool__(self):
         c = Ctx.cur
         if c is None:
             raise Unsupported("SymBool evaluated outside an exploration")
-        return c.branch(self.t)
+        return c.branch(self.t, self.margin)
 
     def __and__(self, o):
         return SymBool(z3.And(self.t, tobool(o)))
@@ -719,7 +772,74 @@ def concretize(x, limit=256):
 
 # --------------------------------------------------------------------------- SymReal
 
+class RFloat(float):
+    """A float that remembers the exact rational it rounds (quotients of ints such as 360 / 59): the real back end
+    computes with the exact value, concrete code sees an ordinary float."""
+    __slots__ = ("frac",)
+
+    def __new__(cls, frac):
+        self = float.__new__(cls, frac.numerator / frac.denominator)
+        self.frac = frac
+        return self
+
+    @staticmethod
+    def _f(o):
+        if isinstance(o, RFloat):
+            return o.frac
+        if isinstance(o, int) and not isinstance(o, bool):
+            return Fraction(o)
+        return None
+
+    def _op(self, o, f, fl):
+        g = RFloat._f(o)
+        if g is None:
+            if isinstance(o, (float, int)):
+                return fl(float(self), o)
+            return NotImplemented
+        return RFloat(f(self.frac, g))
+
+    def __mul__(self, o):
+        return self._op(o, lambda a, b: a * b, lambda a, b: a * b)
+
+    __rmul__ = __mul__
+
+    def __add__(self, o):
+        return self._op(o, lambda a, b: a + b, lambda a, b: a + b)
+
+    __radd__ = __add__
+
+    def __sub__(self, o):
+        return self._op(o, lambda a, b: a - b, lambda a, b: a - b)
+
+    def __rsub__(self, o):
+        return self._op(o, lambda a, b: b - a, lambda a, b: b - a)
+
+    def __truediv__(self, o):
+        if isinstance(o, (int, float)) and o == 0:
+            raise ZeroDivisionError("float division by zero")
+        return self._op(o, lambda a, b: a / b, lambda a, b: a / b)
+
+    def __rtruediv__(self, o):
+        if float(self) == 0:
+            raise ZeroDivisionError("float division by zero")
+        return self._op(o, lambda a, b: b / a, lambda a, b: b / a)
+
+    def __neg__(self):
+        return RFloat(-self.frac)
+
+
+def symx_div(a, b):
+    """a / b : int / int keeps the exact rational alongside the float"""
+    if type(a) is int and type(b) is int:
+        if b == 0:
+            raise ZeroDivisionError("division by zero")
+        return RFloat(Fraction(a, b))
+    return a / b
+
+
 def frac_of(o):
+    if isinstance(o, RFloat):
+        return o.frac
     if isinstance(o, bool):
         return Fraction(int(o))
     if isinstance(o, int):
@@ -814,7 +934,8 @@ class SymReal:
     def _c(self, o, f):
         if o is None:
             raise TypeError("comparison between float and NoneType")
-        return SymBool(f(self.t, SymReal.of(o).t))
+        ot = SymReal.of(o).t
+        return SymBool(f(self.t, ot), margin=self.t - ot)
 
     def __lt__(self, o):
         return self._c(o, lambda a, b: a < b)
@@ -853,14 +974,22 @@ class SymReal:
         return "SymReal(%s)" % str(self.t)[:60]
 
 
+def _note_floor(t):
+    c = Ctx.cur
+    if c is not None:
+        c.floors.append(t)
+
+
 def real_trunc(r):
     """int(float) semantics: truncate toward zero -> SymInt"""
     t = r.t
+    _note_floor(t)
     it = z3.If(t >= 0, z3.ToInt(t), -z3.ToInt(-t))
     return SymInt(it=it, lo=-(1 << 62), hi=1 << 62)
 
 
 def real_floor(r):
+    _note_floor(r.t)
     return SymInt(it=z3.ToInt(r.t), lo=-(1 << 62), hi=1 << 62)
 
 
